@@ -104,6 +104,10 @@ func runC12(p *Prog, r *Report) {
 	// an update filed under an origin the writer never looks up is reported but not written (shared with C13)
 	r.Rule("D5-origin-separator", "pom.xml: origin strings are split, joined and trimmed with the '@' separator")
 	c13Origins(p, r)
+	r.Rule("D11-analysis-current", "a strategy's result pairs the patched manifest with the analysis of that manifest")
+	analysisFollowsManifest(p, r, "D11-analysis-current")
+	r.Rule("D12-requirement-identity", "old and new requirements are paired by RequirementKey, never by package alone")
+	requirementsPairedByKey(p, r, "D12-requirement-identity")
 }
 
 const (
